@@ -43,7 +43,7 @@ type Prop struct {
 
 var registry = map[string]*Prop{}
 
-func Register(p *Prop) { registry[p.ID] = p }
+func Register(p *Prop)       { registry[p.ID] = p }
 func Lookup(id string) *Prop { return registry[id] }
 func IDs() []string {
 	var s []string
@@ -119,7 +119,6 @@ func (c *Ctx) Label(s string) {
 // label length, label.
 const StateSize = 512
 
-
 // Next announces the next case of the unit's deterministic enumeration. It
 // returns false when the case must not be executed (it killed a previous
 // worker, or a replay asked for another case). The index is published to the
@@ -171,7 +170,7 @@ func (c *Ctx) Nontrivial(key ...[]byte) {
 	c.nt[h.Sum64()] = struct{}{}
 }
 
-func (c *Ctx) Outcome(name string)        { c.res.Outcomes[name]++ }
+func (c *Ctx) Outcome(name string)         { c.res.Outcomes[name]++ }
 func (c *Ctx) Count(name string, n uint64) { c.res.Counters[name] += n }
 func (c *Ctx) Max(name string, n uint64) {
 	if c.res.Counters[name] < n {
